@@ -3,8 +3,8 @@
    Proofs/HostView.v (an address that was never loaded is warm exactly when it is pre-warmed at
    transaction level; a slot that was never loaded is cold). The gas charged for an access is a
    function of the is_cold answer (C14: warm_cold_cost, sload_cost, sstore_cost, call_cost). *)
-From RevmV Require Import Base.Word Model.Host Proofs.HostView Proofs.HostOps Proofs.HostMain
-  Proofs.AccessProofs.
+From RevmV Require Import Base.Word Model.Host Spec.AccessSpec Proofs.HostView Proofs.HostOps
+  Proofs.HostMain Proofs.AccessProofs Proofs.AccessRefine Proofs.AccessRefine3.
 Local Open Scope Z_scope.
 
 (* An address is reported cold exactly on its first access: the answer is the negation of the
@@ -62,11 +62,35 @@ Theorem C34_commit_keeps_accesses :
                   slot_warm d (checkpoint_commit s) a k = slot_warm d s a k.
 Proof. intros. split; reflexivity. Qed.
 
-(* Not proved here (named so that the evidence does not overstate): the refinement "for every
-   history the sequence of is_cold answers equals the answers of the accessed-set specification
-   Spec/AccessSpec.v". It is decided per run by the correspondence check (Corr/C34.v evaluates
-   that specification on every generated history against the implementation's answers). The
-   theorems above are its single-step and frame-level ingredients. *)
+(* THE REFINEMENT. For every database, every well-formed state s whose warm status is described
+   by accessed sets w (R d s w), and EVERY history h of journaled-state operations with nested
+   checkpoint / commit / revert and creates, within the contract of C06: the sequence of is_cold
+   answers of the model (model_trace: load_account, load_account_delegated incl. the delegation
+   target, sload, sstore, selfdestruct) is exactly the sequence the accessed-set specification
+   Spec/AccessSpec.v computes (sets copied into a frame, dropped when the frame reverts, kept
+   when it commits). The specification is told only which accounts delegate and which creates
+   succeeded (model_anns) — facts about code and balances, not about access status. *)
+Theorem C34_answers_refine_accessed_sets :
+  forall d h s w sc',
+    WF d s -> R d s w -> contract d (s, []) h -> run_hops d (s, []) h = Some sc' ->
+    snd (spec_run (w, []) h (model_anns d (s, []) h)) = model_trace d (s, []) h.
+Proof.
+  intros d h s w sc' W Rw C Run.
+  apply (access_refinement d h s [] w [] sc'); auto. split; [exact W|]. split; [exact Rw|exact I].
+Qed.
+
+(* the warm status at the start of a transaction is the specification's initial accessed set:
+   pre-warmed addresses for a fresh journaled state, plus each access-list entry *)
+Theorem C34_fresh_state_matches_prewarmed_set :
+  forall d sp ca wp, R d (jnew sp ca wp) (mkAS wp (fun _ _ => false)).
+Proof. exact R_jnew. Qed.
+
+Theorem C34_access_list_entry_extends_sets :
+  forall d s a ks w, R d s w -> st s a = None ->
+    R d (initial_account_load d s a ks)
+        (mkAS (upd (as_acc w) a true) (fun x k => as_slot w x k || ((x =? a) && mem_z ks k))).
+Proof. exact R_initial_load. Qed.
+
 Example C34_example_first_access_cold_second_warm :
   let d := mkDb (fun _ => None) (fun _ _ => 0) (fun _ => None) in
   let s := jnew true true (fun a => a =? 9) in
